@@ -654,10 +654,11 @@ func c18Ins(kind string, uniq int) []*c18Piece {
 	return nil
 }
 
+// the recorded findings, by the guard of C18_partial a history violates.  The former guards "leaked-code"
+// (C18-rejected-piece-code-runs-later), "stuck-compiler" (C18-compiler-stuck-in-function) and "capacity"
+// (C18-stack-slot-per-piece) are gone: those defects were repaired in /repo, the model follows the repaired code,
+// and a recurrence is an unlisted violation of the Spec.
 var c18Finding = map[string]string{
-	"leaked-code":        "C18-rejected-piece-code-runs-later",
-	"stuck-compiler":     "C18-compiler-stuck-in-function",
-	"capacity":           "C18-stack-slot-per-piece",
 	"stale-fn":           "C18-function-globals-snapshot",
 	"decl-after-failure": "C18-failed-piece-declares",
 }
@@ -1145,6 +1146,9 @@ func c18_runC18(e *Env) {
 		e.R.H("host_supplied_globals", env.hostKind[n])
 	}
 	// the smallest histories first: they make the most readable replay
+	// (the directed histories of the recorded and of the REPAIRED defects come first: if a repair is lost, the
+	// first replay is the few-line history that shows it)
+	c18Directed(e, env)
 	if os.Getenv("C18_SKIP_DIRECTED_HOST") == "" { // debugging aid: look at what the generated histories find on their own
 		c18DirectedHost(e, env)
 	}
@@ -1321,7 +1325,6 @@ func c18_runC18(e *Env) {
 			run(at, "mix", false)
 		}
 	}
-	c18Directed(e, env)
 	c18Contexts(e, env)
 	c18Marks(e, env)
 	c18Binding(e, env)
@@ -1637,13 +1640,14 @@ func c18Directed(e *Env, env *c18Env) {
 		e.R.H("history_kind", "directed: "+tag)
 		h.check(e, env, false)
 	}
-	// (1) DESIGN section 8: pr("a") / pr("x"); undefined_name / pr("b")
+	// (1) DESIGN section 8: pr("a") / pr("x"); undefined_name / pr("b") — repaired (Compile rolls back); kept as a regression test
 	undef := func() *c18Stmt {
 		return mk("undefined_name", func(s *c18Stmt) { expr(s); s.Uses = []string{"undefined_name"} })
 	}
-	run("rejected piece's print runs later", &c18History{Pieces: []*c18Piece{
+	run("rejected piece's print must not run later", &c18History{Pieces: []*c18Piece{
 		piece(mk(`print("a")`, expr)), piece(mk(`print("x")`, expr), undef()), piece(mk(`print("b")`, expr))}})
-	// (2) one stack slot per piece: the same one-expression piece fed 1030 times
+	// (2) the same one-expression piece fed 1030 times: before the repair of C18-stack-slot-per-piece every piece
+	// left one value on the operand stack and the 1024th failed; kept as a regression test
 	for _, t := range []struct {
 		src  string
 		need int
@@ -1680,14 +1684,27 @@ func c18Directed(e *Env, env *c18Env) {
 		piece(mk("zx := 1", func(s *c18Stmt) { s.VDecl = []string{"zx"} }), fset),
 		piece(mk("zset()", func(s *c18Stmt) { expr(s); s.Uses, s.Calls = []string{"zset"}, []string{"zset"} })),
 		piece(mk("zx", func(s *c18Stmt) { expr(s); s.Uses = []string{"zx"} }))}})
-	// (4) a compile error inside a function body leaves the compiler inside that function
-	run("compile error inside a function body swallows later input", &c18History{Names: []string{"zx"}, Pieces: []*c18Piece{
+	// (4) a compile error inside a function body: before the repair of C18-compiler-stuck-in-function it left the
+	// compiler inside that function and every later piece was swallowed; kept as a regression test
+	run("compile error inside a function body, then ordinary input", &c18History{Names: []string{"zx"}, Pieces: []*c18Piece{
 		piece(mk("zx := 1", func(s *c18Stmt) { s.VDecl = []string{"zx"} })),
 		piece(mk("func zg() { undefined_name }", func(s *c18Stmt) {
 			s.Leaves, s.Uses, s.InFn, s.CDecl = true, []string{"undefined_name"}, true, []string{"zg"}
 		})),
 		piece(mk("zx = 7", func(s *c18Stmt) { s.Uses, s.Asg = []string{"zx"}, []string{"zx"} })),
 		piece(mk(`print("hello")`, expr)), piece(mk("zx", func(s *c18Stmt) { expr(s); s.Uses = []string{"zx"} }))}})
+	// (4b) a rejected piece whose first pass (collectFunctionDeclarations) has already entered a function name: the
+	// name must not survive the rollback (it did before the repair: "function redefined" for the next attempt)
+	run("rejected piece declared a function; the function is entered again", &c18History{Names: []string{"zf9"}, Pieces: []*c18Piece{
+		piece(mk("func zf9() { return 1 }", func(s *c18Stmt) { s.Leaves, s.CDecl = true, []string{"zf9"} }), undef()),
+		piece(mk("func zf9() { return 2 }", func(s *c18Stmt) { s.Leaves, s.CDecl = true, []string{"zf9"} })),
+		piece(mk("zf9()", func(s *c18Stmt) { expr(s); s.Uses = []string{"zf9"} }))}})
+	// (4c) a rejected piece's declaration is gone: the later use is rejected too, a later declaration of the name is accepted
+	run("rejected piece declared a variable; use, declare again, use", &c18History{Names: []string{"zr9"}, Pieces: []*c18Piece{
+		piece(mk("zr9 := 5", func(s *c18Stmt) { s.VDecl = []string{"zr9"} }), undef()),
+		piece(mk("zr9", func(s *c18Stmt) { expr(s); s.Uses = []string{"zr9"} })),
+		piece(mk("zr9 := 6", func(s *c18Stmt) { s.VDecl = []string{"zr9"} })),
+		piece(mk("zr9", func(s *c18Stmt) { expr(s); s.Uses = []string{"zr9"} }))}})
 	// (5) a piece that fails at run time has still declared its names
 	run("failed piece's declaration stays visible", &c18History{Names: []string{"zy"}, Pieces: []*c18Piece{
 		piece(mk("zy := 1 / 0", func(s *c18Stmt) {
